@@ -39,7 +39,7 @@ Positions == {"absent", "first", "last"}
 
 Cells == {[kind |-> k, form |-> f, n |-> n, npos |-> p] : k \in Kinds, f \in UNION {Forms(kk) : kk \in Kinds}, n \in 0..20, p \in Positions}
 Matrix == {c \in Cells : c.form \in Forms(c.kind) /\ c.n \in Sizes(c.form)}
-AssocCells == {[kind |-> "Association", form |-> "pair", n |-> i, npos |-> p] : i \in 1..4, p \in Positions}
+AssocCells == {[kind |-> "Association", form |-> "pair", n |-> i, npos |-> p] : i \in 0..4, p \in Positions}
 
 Recs == IF MODE = "check" THEN ndJsonDeserialize(IOEnv.TRACE) ELSE <<>>
 
